@@ -240,7 +240,13 @@ func crossCheck(obls []*Obligation, timeoutS int) {
 		}
 		go func(ob *Obligation) {
 			defer func() { done <- struct{}{} }()
-			rs := SolveEach(ob.Query(), timeoutS)
+			// a cross-check, not a proof attempt: 20 CPU-seconds per solver are enough for the solvers that can
+			// decide the query at all, and keep the thorough tier within tens of minutes per property
+			budget := timeoutS
+			if budget > 20 {
+				budget = 20
+			}
+			rs := SolveEach(ob.Query(), budget)
 			for _, r := range rs {
 				if (r.Status == "sat" || r.Status == "unsat") && (ob.Result.Status == "sat" || ob.Result.Status == "unsat") && r.Status != ob.Result.Status {
 					ob.Result = SolverResult{Status: "error", Solver: "portfolio", Raw: "solver disagreement: " + ob.Result.Solver + "=" + ob.Result.Status + " vs " + r.Solver + "=" + r.Status}
